@@ -165,10 +165,12 @@ func largeInits(sizes []int) []buffer.Buffer {
 }
 
 func largeSizes(quick bool) []int {
+	// 66000 and 131080: above the 64 KiB bound at which the printer pool drops buffers (a change may copy that
+	// bound into the buffer itself)
 	if quick {
-		return []int{124, 252, 1020, 4092}
+		return []int{124, 252, 1020, 4092, 66000}
 	}
-	return []int{124, 252, 508, 1020, 4092, 65532}
+	return []int{124, 252, 508, 1020, 4092, 65532, 66000, 131080}
 }
 
 // bufferBFSFrom is bufferBFS from the given initial states; states reached from different initial states are
